@@ -284,6 +284,44 @@ func c05run(every int, ops []c05op, start string) (t c05trace) {
 	return t
 }
 
+// c05fromItems: the constructor MapFromItems is the same thing as Set of each pair in turn, repeated keys
+// included; a few more operations follow so that every observer sees the constructed storage
+func c05fromItems(rng *sx.Rng, n int) {
+	keys := []string{"a", "b", "c", "d", "e"}
+	for i := 0; i < n; i++ {
+		var items []ordered.TupleSS
+		ref := plist{}
+		desc := sx.List{sx.A("from-items")}
+		for k := rng.Intn(7); k > 0; k-- {
+			key, v := sx.Pick(rng, keys), fmt.Sprint("v", rng.Intn(100))
+			items = append(items, ordered.TupleSS{Key: key, Value: v})
+			ref = ref.set(key, v)
+			desc = append(desc, sx.L(sx.A(key), sx.A(v)))
+		}
+		bad := ""
+		func() {
+			defer func() {
+				if r := recover(); r != nil {
+					bad = fmt.Sprintf("panic: %v", r)
+				}
+			}()
+			m := ordered.MapFromItems(items...)
+			bad = c05oracle(m, ref, append([]string{"zz"}, keys...), true, true)
+			for k := rng.Intn(4); k > 0 && bad == ""; k-- {
+				o := c05op{kind: sx.Pick(rng, []string{"s", "r", "d"}), a: sx.Pick(rng, keys), b: sx.Pick(rng, keys), v: "w"}
+				ref = c05apply(m, ref, o)
+				desc = append(desc, o.sexp())
+				bad = c05oracle(m, ref, append([]string{"zz"}, keys...), true, true)
+			}
+		}()
+		if bad != "" {
+			oracleFail("C05", "from-items", desc, bad)
+			continue
+		}
+		stat("C05", "from-items")
+	}
+}
+
 func c05case(every int, oa, ob []c05op, start string) {
 	la, lb := sx.List{}, sx.List{}
 	for _, o := range oa {
@@ -439,6 +477,11 @@ func c05random(rng *sx.Rng, n int) {
 func init() {
 	props["C05"] = func(rng *sx.Rng, thorough bool) {
 		c05nil()
+		if thorough {
+			c05fromItems(rng, 20000)
+		} else {
+			c05fromItems(rng, 1000)
+		}
 		keys, vals := []string{"a", "b", "c"}, []string{"1", "2"}
 		ops := c05allOps(keys, vals)
 		maxLen := 3
